@@ -116,7 +116,7 @@ type Variant struct {
 
 var (
 	CTNames    = []string{"unquoted", "quoted", "folded", "missing", "upper", "compact"}
-	HdrNames   = []string{"plain", "display-name", "quoted-display-name", "group", "comment", "encoded-word", "folded"}
+	HdrNames   = []string{"plain", "display-name", "quoted-display-name", "group", "comment", "encoded-word", "folded", "folded-after-name"}
 	EOLNames   = []string{"CRLF", "LF", "mixed"}
 	PlaceNames = []string{"plain", "preamble+epilogue", "no-close-delimiter", "outer-boundary-prefix-of-inner", "inner-boundary-prefix-of-outer", "delimiters-quoted-mid-line"}
 	BodyNames  = []string{"terminated", "unterminated", "empty"}
@@ -227,6 +227,12 @@ func (b *builder) messageHeaders(n *Node) {
 	case 6:
 		to = "bob@example.org,\n\tcarol@example.org"
 		subj = "hello\n folded " + id
+	case 7:
+		// folded directly after the field name (white space, line break, continuation) and an empty value with
+		// trailing white space
+		to = "\n\tbob@example.org"
+		subj = "\n folded " + id
+		b.line("X-Empty: ")
 	}
 	b.line("From: " + from)
 	b.line("To: " + to)
